@@ -147,6 +147,11 @@ def run_case(case):
         if case['via_link']:
             out['features'].append('via-link')
         # (i) everything outside files/ and info/ identical
+        ci = trashworld.created_inside(s0, s1, case['trashes'])
+        if ci:
+            out['violations'].append({
+                'mechanism': 'purge-created-something-in-trash/' + case['cmd'],
+                'detail': {'created': ci[:6], 'run': r.brief()}})
         od = trashworld.outside_trash_diff(s0, s1, case['trashes'])
         if od:
             out['violations'].append({
